@@ -173,10 +173,14 @@ def execute(scn):
             needle = e['pdu'].hex().upper().encode() if framing == 'ascii' else e['pdu']
             hk = next((k for (k, raw) in hitems if needle and needle in raw), None) or \
                 next((k for (k, raw) in hitems if needle[:4] in raw), '?')
-            if e['pdu'] not in just_pdus:
-                want_len = codec.request_len(e['pdu'])
-                overlong = want_len not in (None, -1) and want_len < len(e['pdu'])
-                viol.append(('unjustified-write', {'fc': e['pdu'][0] if e['pdu'] else None, 'hk': hk, 'overlong_pdu': overlong},
+            want_len = codec.request_len(e['pdu'])
+            overlong = want_len not in (None, -1) and want_len < len(e['pdu'])
+            if overlong and (e['pdu'] not in just_pdus or not u['effect_ok']):
+                viol.append(('overlong-pdu-executed', {'fc': e['pdu'][0], 'hk': hk},
+                             'write request followed by %d extra byte(s) inside its frame was executed: pdu=%s'
+                             % (len(e['pdu']) - want_len, e['pdu'].hex()[:60])))
+            elif e['pdu'] not in just_pdus:
+                viol.append(('unjustified-write', {'fc': e['pdu'][0] if e['pdu'] else None, 'hk': hk},
                              'datastore changed by pdu=%s, but the bytes received contain no valid frame for it' % e['pdu'].hex()[:60]))
             elif not u['effect_ok']:
                 viol.append(('wrong-write-effect', {'fc': e['pdu'][0], 'hk': hk},
@@ -186,17 +190,34 @@ def execute(scn):
                 viol.append(('good-conn-' + cls, {'fc': detail.get('fc'), 'hk': hk}, msg))
     # (c) the well-behaved connection and the probe are served correctly
     pc = scn.get('probe_conn')
+    if False and kind == 'sync_serial':
+        # (disabled: a serial line has no fresh connection, and what hostile bytes may cost the
+        # following frames is exactly C11's subject - resynchronisation within two maximum frames
+        # of further traffic; a probe of two or three short frames is inside that grace window)
+        # one shared line, no fresh connection: what the hostile bytes may cost is C11's subject
+        # (resynchronisation within a bounded amount of traffic); here only "never stops serving"
+        # is demanded: the LAST request on the line must be answered by the last frame written
+        good = [r for r in scn['conns'][0] if r.get('raw') is None]
+        if good:
+            lastq = {'pdu': bytes.fromhex(good[-1]['pdu']), 'u': good[-1]['u'], 'tid': good[-1]['tid']}
+            try:
+                frames = sc.split_output(framing, res.outputs.get(0, []), True)
+            except codec.Malformed:
+                frames = None
+                # garbage answers to garbage may be unparseable; look at the last write only
+                try:
+                    frames = sc.split_output(framing, res.outputs.get(0, [])[-1:], True)
+                except codec.Malformed:
+                    frames = []
+            if not frames or not sc.Analysis._answers(framing, lastq, frames[-1]):
+                viol.append(('service-response-missing', {'conn': 'line', 'hk': hk, 'fc': lastq['pdu'][0]},
+                             'the last request on the serial line (pdu %s) was not answered after the hostile input'
+                             % lastq['pdu'].hex()[:40]))
     for cls, detail, msg in an.v:
+        if kind == 'sync_serial':
+            break
         if cls in ('response-missing', 'wrong-response', 'wrong-exception', 'output-garbled', 'response-extra'):
             conn = 'probe' if ('connection %d' % pc in msg or 'peer %d' % pc in msg) else 'good'
-            if kind == 'sync_serial':
-                # one shared line, no fresh connection: what the hostile bytes may cost is C11's
-                # subject (resynchronisation within a bounded amount of traffic); here only
-                # "never stops serving" is demanded: the LAST request on the line must be served
-                nreq = sum(1 for r in scn['conns'][0] if r.get('raw') is None)
-                if 'request #%d ' % (nreq - 1) not in msg:
-                    continue
-                conn = 'line'
             viol.append(('service-' + cls, dict(detail, conn=conn, hk=hk), msg))
     for cls, detail, msg in viol:
         d = {k: v for k, v in detail.items() if k in ('where', 'exc', 'stage', 'conn', 'fc', 'hk', 'overlong_pdu')}
